@@ -135,9 +135,32 @@ def rand_tucker(rng, shape):
     return tensor.TuckerTensor([rint(rng, (n, r)) for n, r in zip(shape, Rs)], rint(rng, Rs))
 
 
-def rand_tensor(rng, shape, depth=0):
+def rescale(rng, T, mode):
+    """power-of-two rescaling (exact in float and in the rational model).  mode ('u', K): the whole tensor is scaled by
+    2^K (entries down to ~1e-12 / up to ~1e12); mode ('m', J): mixed magnitudes inside one core / one factor / one
+    array: every entry (Canonical: every term) is scaled by 1 or 2^-J."""
+    from pyiga import tensor
+
+    def fac(shape):
+        if mode[0] == 'u':
+            return np.full(shape, 2.0 ** mode[1])
+        return np.where(rng.integers(0, 2, size=shape) == 0, 1.0, 2.0 ** -mode[1])
+    if isinstance(T, np.ndarray):
+        return T * fac(T.shape)
+    if isinstance(T, tensor.CanonicalTensor):
+        return tensor.CanonicalTensor([T.Xs[0] * fac((1, T.R))] + [X.copy() for X in T.Xs[1:]])
+    if isinstance(T, tensor.TuckerTensor):
+        return tensor.TuckerTensor([U.copy() for U in T.Us], T.X * fac(T.X.shape))
+    if isinstance(T, tensor.TensorSum):
+        return tensor.TensorSum(*[rescale(rng, X, mode) for X in T.Xs])
+    raise TypeError(type(T))
+
+
+def rand_tensor(rng, shape, depth=0, allow_prod=True):
     from pyiga import tensor
     k = int(rng.integers(0, 10 if depth == 0 else 6))
+    if not allow_prod and k >= 8:
+        k = 7
     if k <= 2:
         return rand_can(rng, shape)
     if k <= 5:
@@ -145,7 +168,7 @@ def rand_tensor(rng, shape, depth=0):
     if k == 6:
         return rint(rng, shape)
     if k == 7 or len(shape) < 2:
-        return tensor.TensorSum(*[rand_tensor(rng, shape, depth + 1) for _ in range(int(rng.integers(1, 4)))])
+        return tensor.TensorSum(*[rand_tensor(rng, shape, depth + 1, allow_prod) for _ in range(int(rng.integers(1, 4)))])
     cut = int(rng.integers(1, len(shape)))
     return tensor.TensorProd(rand_tensor(rng, shape[:cut], depth + 1), rand_tensor(rng, shape[cut:], depth + 1))
 
@@ -232,15 +255,19 @@ class Skip(Exception):
 
 
 # ----------------------------------------------------------------------------------------- sequences
-def gen_sequence(ctx, rng, order, nsteps):
-    """returns (request line, expected answer line, per-step meta, oracle failures)"""
+def gen_sequence(ctx, rng, order, nsteps, scale=None):
+    """returns (request line, expected answer line, per-step meta, oracle failures).
+    scale = None | ('u', K) | ('m', J): see `rescale`; scaled sequences contain no TensorProd (products of mixed
+    magnitudes would need more than 53 bits, and the diff is exact)."""
     from pyiga import tensor
     mx = {1: 4, 2: 4, 3: 3, 4: 2}[order]
     shape = rand_shape(rng, order, mx)
     env = []      # list of [obj, dense]
     n0 = int(rng.integers(2, 4))
     for _ in range(n0):
-        T = rand_tensor(rng, shape)
+        T = rand_tensor(rng, shape, allow_prod=scale is None)
+        if scale is not None:
+            T = rescale(rng, T, scale)
         env.append([T, tensor.asarray(T).copy()])
     init = '%d %s' % (len(env), ' '.join(f_ten(T) for T, _ in env))
     ops, outs, metas, fails = [], [], [], []
@@ -253,6 +280,8 @@ def gen_sequence(ctx, rng, order, nsteps):
 
     OPS = ['neg', 'add', 'add', 'sub', 'sub', 'get', 'get', 'get', 'squeeze', 'nway', 'pad', 'c2t', 't2c', 'trunc',
            'tsum', 'tprod', 'zeros', 'asarr']
+    if scale is not None:
+        OPS = [o for o in OPS if o != 'tprod'] + ['t2c', 'c2t', 't2c']
     tries = 0
     while len(ops) < nsteps and tries < 60:
         tries += 1
@@ -611,6 +640,20 @@ def run(ctx):
             ctx.violation(op if op == 'pad-empty-axis' else 'ten-oracle:' + op, fail, {'request': line[:3000], 'step': k, 'implementation': out[:3000], 'oracle': fail}, True)
         if s < 3:
             ctx.sample({'seq': line[:300], 'answer': out[:300]})
+    # ---- A2. the same sequences at extreme but valid scales (power-of-two scalings keep float and model exact):
+    #          whole tensors at 2^+-30 / 2^+-40 (entries ~1e-12 ... 1e12) and mixed magnitudes (1 and 2^-32) inside one core
+    for s in range(450 if quick else 4000):
+        order = int(rng.choice([1, 2, 2, 3, 3, 4]))
+        scale = [('u', -40), ('u', -30), ('u', 30), ('u', 40), ('m', 32), ('m', 32), ('m', 24)][int(rng.integers(0, 7))]
+        line, out, metas, fails, shape = gen_sequence(ctx, rng, order, 8, scale=scale)
+        add(line, out, ('seq', metas))
+        nsteps_total += len(metas)
+        ctx.count('scaled sequences %s%d' % scale)
+        for m in metas:
+            ctx.case(line + m['req'], nontrivial=(order >= 2))
+        for (k, op, fail) in fails:
+            ctx.violation(op if op == 'pad-empty-axis' else 'ten-oracle:' + op, fail,
+                          {'request': line[:3000], 'step': k, 'implementation': out[:3000], 'oracle': fail, 'scale': list(scale)}, True)
     ctx.extra['sequence_steps'] = nsteps_total
 
     # ---- B. _normalize_indices: exhaustive 1-axis, random multi-axis
